@@ -1,6 +1,7 @@
 (* C13 — writers surface every sink failure. Model: Life/Writers.v, the
    error-latch discipline of bzip2.Writer / xflate.Writer / meta.Writer over
    a sink with an arbitrary fault plan; what a call emits is a parameter. *)
+From V Require Import Prefix.ReaderImpl Prefix.ReaderSpec Prefix.WriterImpl Prefix.WriterSpec Prefix.WriterThms.
 From V Require Import XFlate.Index XFlate.Writer XFlate.Mono.
 From V Require Import Base.Prelude Life.Writers.
 
@@ -57,3 +58,46 @@ Theorem xflate_sink_before_is_prefix_of_sink_after : forall deflate ops1 ops2 s,
     w_sink (snd (wrun deflate s (ops1 ++ ops2))) = w_sink (snd (wrun deflate s ops1)) ++ extra.
 Proof. exact sink_at_any_moment_is_a_cut. Qed.
 Print Assumptions xflate_sink_before_is_prefix_of_sink_after.
+
+(* The implementation-level model of prefix.Writer (64-bit bit buffer, the 512-byte staging
+   buffer with `cntBuf -= cnt` after a short write, PushBits' wide 8-byte store, the per-byte
+   bit reversal for big-endian order, Flush, raw Write, Try* variants; validated against the
+   real Writer over scripted sinks on every run) REFINES the abstract bit list. *)
+(* (a) a sink that never fails: every observation is the specification's, BitsWritten is the
+   number of bits written, after Flush the sink holds exactly the packed stream and at most
+   7 bits are withheld, no run-time panic, for fields up to 57 bits (64 when aligned) *)
+Theorem bit_writer_refines_bit_list : writer_refines_faultfree.
+Proof. exact writer_refines_faultfree_holds. Qed.
+Print Assumptions bit_writer_refines_bit_list.
+
+(* (b) ANY sink (errors with short counts, once or for ever), any history, no precondition:
+   Offset is always the number of bytes the sink accepted ... *)
+Theorem bit_writer_offset_counts_accepted_bytes : offset_counts_accepted.
+Proof. exact offset_counts_accepted_holds. Qed.
+Print Assumptions bit_writer_offset_counts_accepted_bytes.
+
+(* ... a sink error is the outcome of the operation during which it happened (returned by
+   Flush / Write, raised by WriteBits / WriteSymbol), never swallowed ... *)
+Theorem bit_writer_never_swallows_a_sink_error : sink_error_never_swallowed.
+Proof. exact sink_error_never_swallowed_holds. Qed.
+Print Assumptions bit_writer_never_swallows_a_sink_error.
+
+(* ... and up to and including the first failing operation the sink holds a PREFIX of the
+   packed stream (what it would have received without the failure) *)
+Theorem bit_writer_sink_is_prefix_until_first_failure : writer_refines_until_failure.
+Proof. exact writer_refines_until_failure_holds. Qed.
+Print Assumptions bit_writer_sink_is_prefix_until_first_failure.
+
+(* what does NOT hold, and why every Writer above must latch the first error: after a short
+   write the staging buffer is not compacted, so a second Flush reports success while the
+   sink holds 01 02 03 01 02 03 04 instead of 01..07 *)
+Theorem bit_writer_alone_can_report_false_success_after_short_write :
+  let '(obs, p) := bwrun (winit [SFail 3 9] SAccept false)
+                         [BWBits 0x07060504030201 56; BWFlush; BWFlush] in
+  map obs_err obs = [None; Some (ESrc 9); None] /\
+  (exists vw, nth 2 obs (OWPads (view p)) = OWFlush 7 None vw) /\
+  w_offset p = 7%Z /\ bits_written p = 56%Z /\
+  wsink_data (bw_sink p) = [1; 2; 3; 1; 2; 3; 4] /\
+  pack false (val_bits 56 0x07060504030201) = [1; 2; 3; 4; 5; 6; 7].
+Proof. exact false_success_after_short_write. Qed.
+Print Assumptions bit_writer_alone_can_report_false_success_after_short_write.
